@@ -411,5 +411,10 @@ func processLogFile(absoluteFileName string, output chan *LogEntryInfo) (err err
 		output <- logEntryInfo
 		lineNumber++
 	}
+	// a line longer than the scanner's buffer (bufio.ErrTooLong) or a read error ends the loop as well: report it,
+	// otherwise everything behind that line would silently stay unverified
+	if err := scanner.Err(); err != nil {
+		return err
+	}
 	return nil
 }
